@@ -735,6 +735,11 @@ class MyPyAstVisitor:
             lvalue = lvalue.expr
 
         if isinstance(lvalue, mp_nodes.NameExpr | mp_nodes.MemberExpr):
+            # In a constructor only "self.<name>" defines an attribute of the class. Plain names are local variables and
+            # other member expressions ("self.child.name", "other.name") set the attribute of another object
+            if not is_static and not self._is_self_member_ref(lvalue):
+                return attributes
+
             if self._is_attribute_already_defined(lvalue.name):
                 return attributes
 
@@ -749,6 +754,14 @@ class MyPyAstVisitor:
 
         # Other targets, like the item assignment "self.cache[key] = value", don't define an attribute
         return attributes
+
+    @staticmethod
+    def _is_self_member_ref(expr: mp_nodes.Expression) -> bool:
+        if not isinstance(expr, mp_nodes.MemberExpr) or not isinstance(expr.expr, mp_nodes.NameExpr):
+            return False
+
+        node = expr.expr.node
+        return isinstance(node, mp_nodes.Var) and node.is_self
 
     def _is_attribute_already_defined(self, value_name: str) -> bool:
         # If node is None, it's possible that the attribute was already defined once
